@@ -6,4 +6,4 @@ package reader
 func verifYield(point string, channel string, collectionID int64) {}
 
 // verifNote is a no-op unless built with the verif tag; it never blocks.
-func verifNote(point string, channel string, a uint64, b int64) {}
+func verifNote(point string, channel string, a uint64, ref any) {}
